@@ -35,6 +35,8 @@ def cases(tier, seed):
         for kind, det in base:
             out.append({'id': '%s:%s:%d' % (kind, det, rep), 'kind': kind, 'detection': det, 'wseed': rng.randrange(1 << 30),
                         'nrand': 60 if tier == 'quick' else 200, 'cap512': 60 if tier == 'quick' else 400, 'cost': 5})
+    if tier == 'thorough':
+        out.append({'id': 'memcheck:truncated', 'kind': 'memcheck', 'workload': 'truncated', 'cost': 60})
     return out
 
 
@@ -106,7 +108,28 @@ def read_ops(r):
     return ops
 
 
+
+def run_memcheck_case(case):
+    """thorough tier: the named bounded workload under valgrind memcheck, contracts off; only errors with a frame in libzfp/zfpy count."""
+    import os
+    from .. import memcheck
+    pin = os.environ.get('PYTHONPATH', '').split(os.pathsep)[0]
+    r = memcheck.run_workload(case['workload'], pin)
+    bad = []
+    if not r.get('done'):
+        return {'inconclusive': 'memcheck workload %s did not finish: rc=%s %s %s' % (case['workload'], r.get('rc'), r.get('stdout_tail'), r.get('stderr_tail')),
+                'counters': {'memcheck_runs': 1}}
+    for e in r['errors_in_codec'][:5]:
+        bad.append({'sig': 'memcheck:%s-in-codec' % e['kind'], 'detail': '%s: %s; frames %s' % (case['workload'], e['what'], e['frames'])})
+    if 'ACCEPTED-SUBMINIMUM' in r.get('stdout_tail', ''):
+        bad.append({'sig': 'memcheck:sub-minimum-rate-accepted', 'detail': r['stdout_tail']})
+    return {'violations': bad, 'counters': {'memcheck_runs': 1, 'memcheck_errors_total_any_frame': r['errors_total'], 'memcheck_errors_in_codec': len(r['errors_in_codec'])},
+            'strata': ['memcheck:' + case['workload']], 'key': case['id']}
+
+
 def run_case(case, ctx):
+    if case.get('kind') == 'memcheck':
+        return run_memcheck_case(case)
     from seismic_zfp.read import SgzReader
     sc = ctx['scratch']
     rng = random.Random(case['wseed'] + 1)
